@@ -592,8 +592,18 @@ func (g *Gen) Reply(t string, nodes string, nodes6 string) ([]byte, string) {
 		return benc.Encode(benc.Dict{"y": "r", "t": t, "r": gen.Pick(g.R, []any{"str", int64(1), benc.List{}})}), "r-wrong-type"
 	}
 	r := g.ret(&sig)
-	if g.R.Intn(3) != 0 {
+	switch g.R.Intn(6) {
+	case 0, 1, 2:
 		r["id"] = string(g.R.Bytes(20))
+	case 3:
+		// the asker's own ID, echoed back by the node it asked
+		r["id"] = string(g.OwnID[:])
+		sig = append(sig, "id=own")
+	case 4:
+		if g.R.Bool() {
+			r["id"] = strings.Repeat("\x00", 20)
+			sig = append(sig, "id=zero")
+		}
 	}
 	if g.R.Intn(3) == 0 {
 		r["nodes"] = nodes
